@@ -45,6 +45,9 @@ DECL_GARBAGE = [
     ('<!-- {m}: x', 'cdo'), ('{m}: x -->', 'cdc'), ('{m}: calc(1 +)', 'bad-calc'), ('{m}: ((a))', 'nested-parens'), ('{m}: [({{a;b}})]', 'nested-mixed'),
     ('translate(1px) {m}', 'function-first'), ('rgb(1, 2): {m}', 'function-first'), ('\\7B {m}: x', 'escaped-delimiter-ident'), ('{m} \\28 : x', 'escaped-delimiter-ident'),
     ('{m} ~= x', 'attr-operator-outside'),
+    # (round 7) blocks nested more than one deep inside a declaration
+    ('{m} {{ a {{ b }} c }}', 'nested-block-deep'), ('$$ {{ {m} {{ b }} c }}', 'nested-block-deep'), ('{m}: x {{ y {{ z {{ }} }} ; w }}', 'nested-block-deep'),
+    ('{m} {{ }} {{ {{ ; }} }}', 'nested-block-deep'), ('{m}: f( {{ [ {{ a; b }} ] }} )', 'nested-block-deep'),
 ]  # fmt: skip
 RULE_GARBAGE = [
     ('{m} ! b {{x:1}}', 'selector-delim'), ('{m} $ {{x:1}}', 'selector-delim'), ('{m} > {{x:1}}', 'dangling-combinator'), ('.1{m} {{x:1}}', 'bad-class'),
